@@ -75,9 +75,10 @@ func (R *Repository) AddCRL(crlLocations *core.CRLLocations, chains *core.Certif
 	}
 
 	entry.entryLock.Lock()
-	defer entry.entryLock.Unlock()
-	if entry.LastUpdateSignatureVerifyFailed {
-		//check if the chain contains a new valid signing cert
+	lastUpdateSignatureVerifyFailed := entry.LastUpdateSignatureVerifyFailed
+	entry.entryLock.Unlock()
+	if lastUpdateSignatureVerifyFailed {
+		//check if the chain contains a new valid signing cert (takes the entry lock itself and checks the flag again)
 		R.tryUpdateSignatureCertFromChain(entry, chains)
 	}
 	return crlAdded, nil
